@@ -329,6 +329,9 @@ pub fn judge(p: &Prepared, run: &crate::c08::SaveRun, cx: &Ctx9) -> CaseOut {
     if frame_before != frame_after {
         fail_frame.push(format!("outside the target: {}", snap_diff(&frame_before, &frame_after).join(", ")));
     }
+    if saved {
+        fail_tree.extend(crate::c08::store_bytes_check(p, &run.before, &run.after, &troot));
+    }
     if saved && run.ref_ok {
         let got = subtree(&run.after, &troot);
         let want = subtree(&run.reftree, &troot);
